@@ -319,6 +319,31 @@ def make_kernel(kind, consts, s0, key):
     raise ValueError(k)
 
 
+def make_scripted(kind, consts, s0, key, table):
+    """A liesel kernel (RWKernel / MHKernel with tuning / IWLSKernel) whose _standard_transition is replaced by
+    one that reports a PRESCRIBED acceptance probability table[time_in_epoch] and leaves the model state alone.
+    Everything the property is about stays liesel's own code: TransitionMixin.transition, _adaptive_transition
+    (da_step), start_epoch (da_init), end_epoch (da_finalize), tune.  Used to force acceptance sequences whose
+    deviations from the target cancel exactly (error_sum returns to 0.0 at the end of an adaptation epoch)."""
+    L = lib()
+    jnp, gs = L["jnp"], L["gs"]
+    from liesel.goose.kernel import DefaultTransitionInfo, TransitionOutcome
+    c = consts
+    kw = dict(da_target_accept=c[0], da_gamma=c[1], da_kappa=c[2], da_t0=int(c[3]) if float(c[3]).is_integer() else c[3])
+    base = {"RW": gs.RWKernel, "MH1": gs.MHKernel, "IWLS": gs.IWLSKernel}[kind]
+    tab = [float(a) for a in table]
+
+    class Scripted(base):
+        def _standard_transition(self, prng_key, kernel_state, model_state, epoch):
+            a = jnp.asarray(tab, dtype=jnp.float32)[epoch.time_in_epoch % len(tab)]
+            info = DefaultTransitionInfo(error_code=jnp.int32(0), acceptance_prob=a, position_moved=jnp.int32(0))
+            return TransitionOutcome(info, kernel_state, model_state)
+
+    if kind == "MH1":
+        return Scripted([key], lambda k, ms, st: None, initial_step_size=s0, da_tune_step_size=True, **kw)
+    return Scripted([key], initial_step_size=s0, **kw)
+
+
 def run_engine(spec):
     """One real Engine whose kernel sequence holds one kernel of every kind in spec['kernels'] (each
     on its own 3-dimensional block of a Gaussian model, each with its own constants and initial step
@@ -344,7 +369,10 @@ def run_engine(spec):
     b.store_kernel_states = True
     b.set_model(gs.DictInterface(logp))
     for i, ksp in enumerate(kernels):
-        b.add_kernel(make_kernel(ksp["kernel"], ksp["consts"], ksp["s0"], f"p{i}"))
+        if ksp.get("table"):
+            b.add_kernel(make_scripted(ksp["kernel"], ksp["consts"], ksp["s0"], f"p{i}", ksp["table"]))
+        else:
+            b.add_kernel(make_kernel(ksp["kernel"], ksp["consts"], ksp["s0"], f"p{i}"))
     b.set_initial_values({f"p{i}": jnp.array([0.5, -0.25, 0.125 * i], dtype=jnp.float32) for i in range(len(kernels))})
     cfgs = [L["EpochConfig"](L["EpochType"](0), 1, 1, None)]
     cfgs += [L["EpochConfig"](L["EpochType"](int(t)), int(d), 1, None) for (t, d) in spec["sched"]]
@@ -369,7 +397,7 @@ def run_engine(spec):
             states = [[fin(f[ch, i]) for f in f4] for i in range(T + 1)]
             dtypes = sorted({str(f.dtype) for f in f4})
             case = {"kind": "engine", "spec": spec, "kidx": ki, "kernel": ksp["kernel"], "consts": ksp["consts"],
-                    "s0": ksp["s0"], "sched": spec["sched"], "chain": ch, "states": states,
+                    "s0": ksp["s0"], "sched": spec["sched"], "chain": ch, "states": states, "scripted": bool(ksp.get("table")),
                     "accs": [fin(a) for a in acc[ch]], "errs": [int(e) for e in err[ch]], "dtypes": dtypes,
                     "imm": [[float(v) for v in imm[ch, i].ravel()] for i in range(T + 1)] if imm is not None else None}
             out.append(case)
@@ -444,6 +472,37 @@ def gen_single(rnd, tie, idx=0, equal=False):
             "a": a, "a2": a2, "tie": tie, "tie_array": idx % 2 == 1}
 
 
+# (target, acceptance sequence): the deviations target - a cancel exactly (in float32 and float64), so the
+# error sum is exactly 0.0 again after a non-trivial sequence while the averaged log step size has moved
+CANCEL = [
+    (0.5, [1.0, 0.0]), (0.5, [1.0, 0.5, 0.0]), (0.25, [1.0, 0.0, 0.0, 0.0]), (0.75, [0.0, 1.0, 1.0, 1.0]),
+    (0.5, [1.0, 1.0, 0.0, 0.0, 1.0, 0.0]), (0.75, [0.0, 1.0, 1.0, 1.0, 1.0, 0.5, 0.5, 1.0]),
+    (0.5, [0.75, 0.25]), (0.25, [0.5, 0.0]), (0.75, [1.0, 0.5]), (0.25, [0.75, 0.0, 0.0]), (0.75, [0.25, 1.0, 1.0]),
+    (0.5, [0.0, 1.0, 1.0, 0.0]), (0.5, [1.0, 0.0] * 4), (0.25, [1.0, 0.0, 0.0, 0.0] * 2), (0.25, [0.0, 0.5, 0.0, 0.5, 0.25]),
+    (0.5, [0.0, 0.0, 0.0, 1.0, 1.0, 1.0, 0.25, 0.75]),
+]
+
+
+def gen_cancel(rnd, k, idx):
+    delta, accs = CANCEL[k]
+    c = [delta] + gen_consts(rnd)[1:]
+    return {"kind": "direct", "cls": STATE_CLASSES[idx % 4], "consts": c,
+            "s0": rnd.choice([1.0, 0.5, 0.25, 0.01, 2.0, 0.3]), "accs": list(accs), "mode": "cancelling",
+            "garbage": None if idx % 2 else [1.5, -2.0, 0.25], "tie_array": idx % 2 == 0}
+
+
+def scripted_spec(rnd, quick, variant):
+    """engine whose kernels report prescribed acceptance probabilities: at the end of every adaptation epoch
+    (durations 2, 4, 8; for targets 0.25 / 0.75 durations 4 and 8) the error sum is exactly 0.0 again"""
+    tabs = {0.5: [1.0, 0.0, 0.0, 1.0, 1.0, 0.0, 1.0, 0.0], 0.25: [1.0, 0.0, 0.0, 0.0, 0.0, 0.0, 1.0, 0.0],
+            0.75: [0.0, 1.0, 1.0, 1.0, 1.0, 1.0, 0.0, 1.0]}
+    plan = [("MH1", 0.5), ("RW", 0.25), ("IWLS", 0.75)] if variant == 0 else [("RW", 0.5), ("IWLS", 0.5), ("MH1", 0.75), ("MH1", 0.25)]
+    ks = [{"kernel": k, "consts": [d] + gen_consts(rnd, dyadic=True)[1:], "s0": rnd.choice([0.25, 0.5, 1.0]), "table": tabs[d]}
+          for (k, d) in plan]
+    sched = [(1, 2), (2, 4), (1, 8), (4, 2), (4, 2)] if variant == 0 else [(2, 4), (1, 2), (3, 2), (2, 8), (4, 4)]
+    return {"kernels": ks, "sched": sched, "nchains": 1, "seed": rnd.randrange(1, 10 ** 6)}
+
+
 DBL_LOG_MAX = 709.78
 
 
@@ -488,7 +547,9 @@ def generate(ctx):
         gen_direct(rnd, 12, "zeros", hmc_default, 4), gen_direct(rnd, 12, "ones", rw_default, 5),
     ]
     cases += corpus
-    ndir = 10 if quick else 100
+    for j, k in enumerate([0, 1, 2, 3, 4, 5] if quick else list(range(len(CANCEL))) * 2):
+        cases.append(gen_cancel(rnd, k, j))
+    ndir = 8 if quick else 100
     for i in range(ndir):
         mode = ["random", "random", "random", "extreme", "zeros", "ones"][i % 6]
         n = [1, 2, 3, 5, 8, 12][rnd.randrange(6)] if i % 7 else 12
@@ -520,6 +581,9 @@ def generate(ctx):
             ks.append({"kernel": k, "consts": gen_consts(rnd, dyadic=True, default=default),
                        "s0": rnd.choice([0.25, 0.5, 1.0, 0.125]) if k != "IWLS" else rnd.choice([0.25, 0.5, 1.0])})
         specs.append({"kernels": ks, "sched": gen_sched(rnd, quick, shape), "nchains": nch, "seed": rnd.randrange(1, 10 ** 6)})
+    specs.append(scripted_spec(rnd, quick, 0))
+    if not quick:
+        specs.append(scripted_spec(rnd, quick, 1))
     for sp in specs:
         cases += run_engine(sp)
         common.log(f"[C11] engine with {len(sp['kernels'])} kernels, schedule {sp['sched']} done at {time.time() - t_0:.1f}s")
@@ -531,6 +595,8 @@ def generate(ctx):
             ctx.hist(f"direct.len={len(c['accs'])}")
             ctx.hist(f"direct.acc_mode={c['mode']}")
             ctx.hist("direct.init_on_used_state" if c["garbage"] else "direct.init_on_fresh_state")
+            if len(c["accs"]) >= 2 and c["obs"][-1][1] == 0.0:
+                ctx.hist("direct.error_sum_exactly_0_at_finalize_after_steps")
             ctx.hist(f"direct.state_class={c['cls']}")
             nontrivial.add(("d", tuple(c["consts"]), c["s0"], tuple(c["accs"])))
         elif c["kind"] == "single":
@@ -540,7 +606,10 @@ def generate(ctx):
                 ctx.hist("single.twin_across_float64_overflow_of_exp")
             nontrivial.add(("s", tuple(c["consts"]), tuple(c["prev"]), c["a"], c["tie"]))
         else:
-            ctx.hist(f"engine.kernel={c['kernel']}")
+            ctx.hist(f"engine.kernel={c['kernel']}" + (".scripted_acceptance" if c.get("scripted") else ""))
+            for (t, idxs) in epochs_of(c):
+                if t in (1, 2) and tunes(c) and len(idxs) >= 2 and c["states"][idxs[-1]][1] == 0.0:
+                    ctx.hist("engine.adaptation_epochs_ending_with_error_sum_exactly_0")
             for (t, idxs) in epochs_of(c):
                 ctx.hist(f"engine.transitions.{ETY[t]}", len(idxs))
             ctx.hist("engine.dtypes=" + ",".join(c["dtypes"]))
